@@ -195,6 +195,11 @@ def cas_shape(ctx, R, rule, q, table, label):
          func=f, nontrivial=False)
 
 
+def c04_swallows(f, h):
+    from psa.rules.c04 import handler_swallows
+    return handler_swallows(f, h)
+
+
 def conflict_conversions(ctx, impl):
     """[(try, handler, raises)] for except clauses catching the CUD family."""
     out = []
@@ -424,6 +429,11 @@ def run(ctx, R):
             for t, h, rs in conflict_conversions(ctx, h_):
                 convs.append((h_, t, h, rs))
         for hf, t, h, rs in convs:
+            rs = [r for r in rs if r.exc is not None]
+            if not rs and not c04_swallows(hf, h):
+                # pure re-raise: converted (or not) further out; the escape
+                # obligation above decides
+                continue
             okc = bool(rs)
             why = 'no raise in the except clause'
             for r in rs:
